@@ -86,7 +86,7 @@ Proof.
   destruct (exists_ m ftp && negb (is_regular_file m ftp)).
   { eapply RO_bind; [apply RO_body_if|intros ps _].
     eapply RO_bind; [apply RO_refuse|intros st' H]. apply RO_ret. exact H. }
-  destruct (N.eqb (N.land (get_permissions m outf) write_mask) 0 && match read_only o with ROFail => true | _ => false end).
+  destruct (N.eqb (N.land (effective_perms st m outf) write_mask) 0 && match read_only o with ROFail => true | _ => false end).
   { eapply RO_bind; [apply RO_body_if|intros ps _].
     eapply RO_bind; [apply RO_refuse|intros st' H]. apply RO_ret. exact H. }
   eapply RO_bind with (Q := fun _ => True).
